@@ -57,6 +57,26 @@ type c12Odd struct {
 	ǈuba   int    // a title-case letter is not upper case: not exported
 }
 
+// types with methods: they are structs (maps, slices) like any other
+type c12Account struct {
+	Owner string
+	Plan  *c12Plan
+	Tags  c12TagList
+}
+
+type c12Plan struct {
+	Name  string
+	Seats int
+}
+
+type c12TagList []string
+
+func (a c12Account) String() string            { return "account of " + a.Owner }
+func (p *c12Plan) String() string              { return "plan " + p.Name }
+func (t c12TagList) String() string            { return strings.Join(t, "+") }
+func (a c12Account) Error() string             { return "not an error" }
+func (p c12Plan) MarshalText() ([]byte, error) { return []byte("text"), nil }
+
 type c12Wide struct {
 	I8  int8
 	I16 int16
@@ -631,7 +651,9 @@ func init() {
 						}
 						data = map[string]any{"v": xs}
 						probes = [][2]string{{"{{ v.len() }}", fmt.Sprint(m)}, {"{{ v[0] }}|{{ v[" + fmt.Sprint(m-1) + "] }}|{{ v[" + fmt.Sprint(m/2) + "] }}", fmt.Sprintf("0|%d|%d", (m-1)*7, (m/2)*7)},
-							{"{{ v[" + fmt.Sprint(m) + "] }}", ""}, {"@each(x in v)@if(loop.last){{ x }}@end@end", fmt.Sprint((m - 1) * 7)}}
+							{"{{ v[" + fmt.Sprint(m) + "] }}", ""}, {"@each(x in v)@if(loop.last){{ x }}@end@end", fmt.Sprint((m - 1) * 7)},
+							// positions written with leading zeros are the same positions
+							{"{{ v[010] }}|{{ v[0100] }}|{{ v[08] }}|{{ v[007] }}|{{ v[00] }}", fmt.Sprintf("%d|%d|%d|%d|0", 10*7, 100*7, 8*7, 7*7)}}
 					case 1: // a map with many keys
 						mp := map[string]any{}
 						for k := 0; k < n; k++ {
@@ -810,7 +832,29 @@ func init() {
 						c.Violation("name-like-keyword", fmt.Sprintf("%s gave %s, want %q", src, got.Describe(), want), map[string]any{"source": src})
 					}
 				}}
-			return []core.Section{reuse, sameName, large, shared, entries, namesLike, {Name: "generated-values", N: n,
+			methods := core.Section{Name: "types-with-methods", Exhaustive: true, N: 4,
+				Run: func(c *core.Ctx, i int) {
+					acct := c12Account{Owner: "ann", Plan: &c12Plan{Name: "pro", Seats: 5}, Tags: c12TagList{"a", "b"}}
+					var v any
+					switch i {
+					case 0:
+						v = acct
+					case 1:
+						v = &acct
+					case 2:
+						v = []any{acct, &acct}[1]
+					default:
+						v = map[string]any{"wrapped": acct}["wrapped"]
+					}
+					src := "{{ v.owner }}|{{ v.plan.name }}|{{ v.plan.seats + 1 }}|{{ v.tags[1] }}|{{ v.tags.len() }}|{{ v[\"Owner\"] }}"
+					c.Input(map[string]any{"source": src, "case": i})
+					got := evalString(c, src, map[string]any{"v": v})
+					c.Nontrivial(fmt.Sprint("methods", i))
+					if want := "ann|pro|6|b|2|ann"; !got.Panicked && (got.Err != nil || got.Out != want) {
+						c.Violation("type-with-methods", fmt.Sprintf("%s on a struct whose type has String/Error/MarshalText methods gave %s, want %q", src, got.Describe(), want), map[string]any{"source": src})
+					}
+				}}
+			return []core.Section{reuse, sameName, large, shared, entries, namesLike, methods, {Name: "generated-values", N: n,
 				Run: func(c *core.Ctx, i int) {
 					depth := 1 + i%4
 					// the same seed builds the value twice: one is rendered, one is the reference copy
